@@ -177,7 +177,7 @@ func (t *Transfer) inIxfr(q *Msg, c chan *Envelope) {
 			// This serial is important
 			serial = in.Answer[0].(*SOA).Serial
 			// Check if there are no changes in zone
-			if qser >= serial {
+			if int32(serial-qser) <= 0 { // RFC 1982 serial number arithmetic
 				c <- &Envelope{in.Answer, nil}
 				return
 			}
